@@ -89,7 +89,15 @@ func runDeferredCase(c *dfCase, dir string) (string, string) {
 	// a stream target without an explicit format option writes a CARv1 whatever else the stream can do:
 	// every other such case hands over an *os.File (which is also an io.WriterAt) as the stream
 	var streamFile *os.File
-	if c.C.Target == "stream" {
+	if c.C.Target == "wstream" { // a stream that can be written at an offset, with the CARv2 format asked for explicitly
+		spath := filepath.Join(dir, "wstream.car")
+		os.Remove(spath)
+		defer os.Remove(spath)
+		streamFile, _ = os.OpenFile(spath, os.O_CREATE|os.O_TRUNC|os.O_RDWR, 0o644)
+		defer streamFile.Close()
+		opts = append(opts, carv2.WriteAsCarV1(c.C.V1))
+		w = deferred.NewDeferredCarWriterForStream(streamFile, idsToCids(c.Roots), opts...)
+	} else if c.C.Target == "stream" {
 		if !c.C.V1 {
 			opts = append(opts, carv2.WriteAsCarV1(false)) // said explicitly: must win over the constructor's default
 		}
